@@ -16,6 +16,7 @@ fn contains(h: &[u8], n: &[u8]) -> bool {
 
 pub fn generate(seed: u64, tier: &str, sink: &mut Sink) {
     generate_sel(seed, tier, sink, false);
+    redirected_into_tunnel(seed, sink);
     // "after success the TLS session is verified against the origin's name": real handshakes through the
     // in-process CONNECT proxy of C14's matrix (seed C12-seed9: a TLS connector remembered per thread)
     crate::p_c14::generate_sel(seed, tier, sink, true);
@@ -267,6 +268,93 @@ pub fn generate_sel(seed: u64, tier: &str, sink: &mut Sink, only_refusal_bodies:
         let body: Vec<u8> = (0..len).map(|i| (i % 251) as u8).collect();
         for pi in [0usize, 3] {
             run(403, b"HTTP/1.1 403 Forbidden\r\n\r\n".to_vec(), "valid", body.clone(), 0, pi, len > 20000 || len % 2 == 0, &mut rng, sink);
+        }
+    }
+}
+
+/// An https URL that is reached by a redirect is behind the proxy configured for https URLs like any other: the
+/// hop that reaches it first sends a CONNECT to THAT proxy, with that proxy's credentials, whatever the previous
+/// hop did — in particular when the redirect changes the scheme and keeps the host (`http://site/` →
+/// `https://site/`, the most common redirect there is; seed C12-seed11: the proxy looked up again only when the
+/// host changes).
+fn redirected_into_tunnel(seed: u64, sink: &mut Sink) {
+    let mut rng = Rng::new(seed ^ 0xC12D);
+    let http_proxies: [Option<&str>; 3] = [None, Some("http://ha:hp@hproxy.test:3128"), Some("http://sa:sp@sproxy.test:8080")];
+    let locations = ["https://site.test/secure?tok=S3cr3tQuery", "https://site.test:8443/x", "https://SITE.test/up", "//site.test/same-scheme", "https://other.test/elsewhere"];
+    for hp in http_proxies {
+        for loc in locations {
+            for status in [301u16, 307, 308] {
+                for refuse in [true, false] {
+                    let first = crate::p_c09::response(status, Some(loc.as_bytes()));
+                    let reply: Vec<u8> = if refuse { b"HTTP/1.1 403 Forbidden\r\nContent-Length: 2\r\n\r\nno".to_vec() } else { b"HTTP/1.1 200 Connection established\r\n\r\n".to_vec() };
+                    let seg = |w: &[u8], rng: &mut Rng| -> Vec<Seg> { if rng.chance(1, 2) { vec![Seg::Data(w.to_vec())] } else { w.chunks(rng.range(1, 9) as usize).map(|c| Seg::Data(c.to_vec())).collect() } };
+                    let case = SendCase {
+                        method: "POST".into(),
+                        url: "http://site.test/start".into(),
+                        follow: true,
+                        max_redirections: 5,
+                        max_headers: 100,
+                        compress: true,
+                        proxy: ProxyCfg { http: hp.map(|s| s.to_string()), https: Some("http://sa:sp@sproxy.test:8080".into()), no_proxy: vec![] },
+                        params: vec![],
+                        pre: vec![Step::Header("X-Secret".into(), SECRET_HEADER.as_bytes().to_vec())],
+                        body: BodyR::Text(SECRET_BODY.into()),
+                        post: vec![],
+                        hops: vec![(seg(&first, &mut rng), Some(loc.as_bytes().to_vec())), (seg(&reply, &mut rng), None)],
+                        plain_tunnel: false,
+                    };
+                    let obs = run_send(&case);
+                    let tunnels = !loc.starts_with("//");
+                    let o: Result<(), (String, String)> = (|| {
+                        if matches!(obs.fin, FinalObs::Panic) {
+                            return Err(("panic".into(), "send() panicked".into()));
+                        }
+                        obs.resend_check("redirected-tunnel")?;
+                        if obs.hops.len() != 2 {
+                            return Err(("connections".into(), format!("{} connections; final {:?}", obs.hops.len(), obs.fin)));
+                        }
+                        if !tunnels {
+                            return Ok(()); // stays http: judged by the model
+                        }
+                        let h = &obs.hops[1];
+                        if h.dial.host != "sproxy.test" || h.dial.port != 8080 {
+                            return Err(("wrong-peer".into(), format!("the https URL {} reached by a {} was dialled at {}:{}; https URLs are behind sproxy.test:8080", loc, status, h.dial.host, h.dial.port)));
+                        }
+                        let target = url::Url::parse(loc).unwrap();
+                        let want = format!("CONNECT {}:{} HTTP/1.1\r\n", target.host_str().unwrap(), target.port_or_known_default().unwrap());
+                        if !h.written.starts_with(want.as_bytes()) {
+                            return Err(("connect-target".into(), format!("wrote {:?}, expected {:?} first", String::from_utf8_lossy(&h.written[..h.written.len().min(80)]), want)));
+                        }
+                        let p = h.written.windows(4).position(|x| x == b"\r\n\r\n").ok_or(("no-connect-head".to_string(), "no CONNECT head".to_string()))?;
+                        let pr = spec::parse_request(&h.written[..p + 4]).map_err(|e| ("malformed-connect".to_string(), e))?;
+                        let pa: Vec<&Vec<u8>> = pr.headers.iter().filter(|(n, _)| n == "proxy-authorization").map(|(_, v)| v).collect();
+                        if pa.len() != 1 || pa[0].as_slice() != format!("Basic {}", spec::b64(b"sa:sp")).as_bytes() {
+                            return Err(("proxy-authorization".into(), format!("Proxy-Authorization {:?}: not derived from the credentials of the https proxy", pa.iter().map(|v| String::from_utf8_lossy(v).to_string()).collect::<Vec<_>>())));
+                        }
+                        for (what, secret) in [("header", SECRET_HEADER), ("body", SECRET_BODY), ("query", "S3cr3tQuery")] {
+                            if h.written.windows(secret.len()).any(|w| w == secret.as_bytes()) {
+                                return Err((format!("leak-{}", what), format!("{} written to the proxy in clear", what)));
+                            }
+                        }
+                        if refuse {
+                            if h.written.len() != p + 4 {
+                                return Err(("bytes-after-refusal".into(), format!("{} bytes written behind the CONNECT head although the proxy refused", h.written.len() - p - 4)));
+                            }
+                            match &obs.fin {
+                                FinalObs::ConnectError(403, b) if b == b"no" => {}
+                                f => return Err(("refusal-not-reported".into(), format!("final {:?}", f))),
+                            }
+                        }
+                        Ok(())
+                    })();
+                    sink.push(Case {
+                        tags: vec!["kind=redirected-into-tunnel".into(), format!("http-proxy={}", hp.is_some()), format!("status={}", status), format!("refused={}", refuse), format!("same-host={}", loc.to_ascii_lowercase().contains("site.test"))],
+                        op: case.op_line(&obs),
+                        impl_line: obs.line(),
+                        oracle: o,
+                    });
+                }
+            }
         }
     }
 }
